@@ -206,6 +206,37 @@ def populate(rng, lay, n_entries=None, malformed_rate=0.25, insecure_too=True, r
         nodes += entry(td, name, pathv, date, pk, data=(rng.choice(['/canary/file', '/canary/dir', '/canary/rodir', '../../../../canary/dir', 'nowhere']) if pk == 'l' else None))
         ents.append({'td': td, 'vol': vol, 'dirkind': kind, 'usable': usable, 'name': name, 'path': full, 'pathv': pathv,
                      'date': date, 'payload': pk})
+    # confusable families in ONE trash directory: names that differ by a '.trashinfo' suffix (X / X.trashinfo share the prefix
+    # of their info names), original names that differ only by percent-decoding, the same original path twice, and a path whose
+    # escaped form is longer than 4 KiB (80-character CJK components: 1.7 kB on disk, 5 kB in the info file)
+    if n and rng.random() < 0.4:
+        td, vol, kind, usable = rng.choice(dirs)
+        fam = rng.choice(['suffix', 'suffix', 'percent', 'twice', 'long'])
+        sub = rng.choice(DIR_POOL)
+        if fam == 'suffix':
+            x = rng.choice(['notes', 'a', 'é'])
+            members = [(x, x), (x + '.trashinfo', x + '.trashinfo')] + ([(x + '.trashinfo.trashinfo', 'z')] if rng.random() < 0.3 else [])
+        elif fam == 'percent':
+            members = rng.choice([[('p1', 'per%41'), ('p2', 'perA')], [('p1', 'r%20f.txt'), ('p2', 'r f.txt')], [('p1', '100%25'), ('p2', '100%')]])
+        elif fam == 'twice':
+            members = [('same', 'same'), ('same_1', 'same')]
+        else:
+            members = [('long', '/'.join(['\u6f22' * 80] * rng.choice([6, 7])) + '/report.txt')]
+        two_dates = rng.sample(DATES, 2)
+        for i, (name, base) in enumerate(members):
+            if (td, name) in used:
+                continue
+            used.add((td, name))
+            if kind == 'home' and not rel_in_home:
+                pathv = full = os.path.join(lay.home, sub, base)
+            else:
+                pathv = os.path.join(sub, base)
+                full = os.path.join(vol if kind != 'home' else '/', pathv)
+            date = two_dates[i % 2] if fam != 'twice' or rng.random() < 0.5 else two_dates[0]
+            pk = rng.choice(['f', 'f', 'd'])
+            nodes += entry(td, name, pathv, date, pk)
+            ents.append({'td': td, 'vol': vol, 'dirkind': kind, 'usable': usable, 'name': name, 'path': full, 'pathv': pathv,
+                         'date': date, 'payload': pk, 'family': fam})
     mal = []
     for k in range(rng.choice([0, 0, 1, 2, 3]) if malformed_rate else 0):
         td, vol, kind, usable = rng.choice(dirs)
@@ -214,6 +245,16 @@ def populate(rng, lay, n_entries=None, malformed_rate=0.25, insecure_too=True, r
         mal.append({'td': td, 'kind': mk})
     nodes += canary()
     return nodes, ents, mal
+
+
+def suffix_family(rng, p=0.3):
+    """trash names that are confusable when '.trashinfo' is cut off or substituted carelessly: X, X.trashinfo, X.trashinfo.trashinfo"""
+    if rng.random() >= p:
+        return []
+    x = rng.choice(['notes', 'a', '\xe9', 'x y'])
+    fam = [x, x + '.trashinfo'] + ([x + '.trashinfo.trashinfo'] if rng.random() < 0.4 else [])
+    rng.shuffle(fam)
+    return fam
 
 
 def canary():
